@@ -27,27 +27,34 @@ theorem recv_cases (n : Node) (f : Int) :
      | .silent => n.done.isSome = true ∧ (n.recv f).1 = n
      | .err _ => (n.recv f).1 = n) := by
   unfold Node.recv
-  split
-  · rename_i hd; simp [hd]
-  · rename_i hd
-    have hdn : n.done = none := by simpa using hd
-    split
-    · split
+  cases hd : n.done.isSome
+  · have hdn : n.done = none := by simpa using hd
+    simp only [Bool.false_eq_true, if_false]
+    cases h1 : (n.taproot && !n.isInit)
+    · simp only [Bool.false_eq_true, if_false]
+      cases h2 : (n.taproot && !n.offers.contains f)
+      · simp only [Bool.false_eq_true, if_false]
+        cases h3 : n.offers.contains f
+        · simp only [Bool.false_eq_true, if_false]
+          cases h4 : (n.isInit && decide (calcCompromiseFee n.ideal n.last f > n.maxFee))
+          · simp only [Bool.false_eq_true, if_false]
+            cases hp : n.propose (calcCompromiseFee n.ideal n.last f) with
+            | none => simp
+            | some n' =>
+              obtain ⟨a, b, c, _⟩ := propose_fields hp
+              by_cases h5 : calcCompromiseFee n.ideal n.last f = f
+              · simp [h5, a, b, hdn]
+              · simp [h5, a, b, c, hdn]
+          · simp
+        · simp [hdn]
       · simp
-      · rename_i n' hp
+    · simp only [if_true]
+      cases hp : n.propose f with
+      | none => simp
+      | some n' =>
         obtain ⟨a, b, _, _⟩ := propose_fields hp
         simp [a, b, hdn]
-    · split
-      · simp
-      · split
-        · simp [hdn]
-        · split
-          · simp
-          · split
-            · simp
-            · rename_i n' hp
-              obtain ⟨a, b, c, _⟩ := propose_fields hp
-              split <;> simp [a, b, c, hdn]
+  · simp
 
 /-- well-formed two-party state: one opener, same channel type on both sides, a failure leaves
     nothing in flight. -/
